@@ -368,8 +368,12 @@ fn replay_conv(sc: &Value) -> usize {
             let (s, al) = shapes[n % 6];
             let reuse = a["reuse"].as_bool().unwrap_or(false) && n > 0;
             let nm = if reuse { "f0".to_string() } else { format!("f{}", n) };
-            if add(&mut src, &nm, s, al).is_err() {
-                add(&mut src, &format!("f{}", n), s, al).expect("source add");
+            let id = match add(&mut src, &nm, s, al) {
+                Ok(id) => id,
+                Err(_) => add(&mut src, &format!("f{}", n), s, al).expect("source add"),
+            };
+            if a["undo"].as_bool().unwrap_or(false) {
+                let _ = src.remove_datum(id);
             }
             n += 1;
         }
